@@ -55,11 +55,12 @@ type greq struct {
 }
 
 type gen struct {
-	r    *rand.Rand
-	ops  []Op
-	cl   map[string]*gcl
-	reqs []*greq
-	rid  int
+	r      *rand.Rand
+	ops    []Op
+	cl     map[string]*gcl
+	reqs   []*greq
+	rid    int
+	storms []int
 }
 
 func (g *gen) servers(min int) []Srv {
@@ -131,6 +132,21 @@ func (g *gen) start(host, hold string) int {
 	g.ops = append(g.ops, Op{Op: "start", Rid: g.rid, Host: host, Hold: hold, Watch: g.r.Intn(2) == 0})
 	g.reqs = append(g.reqs, &greq{rid: g.rid, released: hold == "stream"})
 	return g.rid
+}
+
+// storm: n clients fire at host within the next two milliseconds and race with whatever op follows
+func (g *gen) storm(host string) {
+	n := 3 + g.r.Intn(6)
+	var delays []int
+	for i := 0; i < n; i++ {
+		delays = append(delays, g.r.Intn(2000))
+	}
+	base := 1000 + 100*len(g.storms)
+	g.ops = append(g.ops, Op{Op: "storm", Rid: base, Host: host, Delays: delays})
+	for i := 0; i < n; i++ {
+		g.storms = append(g.storms, base+i)
+		g.reqs = append(g.reqs, &greq{rid: base + i, released: true})
+	}
 }
 
 func (g *gen) release(rid int) {
@@ -219,6 +235,12 @@ func template(r *rand.Rand, kind, point string) Case {
 		}
 	}
 	hostBefore := g.hostOf(A)
+	if r.Intn(3) == 0 {
+		g.storm(g.hostOf(A)) // an unscripted race with the removal
+		if withB && r.Intn(2) == 0 {
+			g.storm(g.hostOf(B))
+		}
+	}
 	// the removal
 	switch kind {
 	case "delete-cluster":
@@ -352,6 +374,9 @@ func randomCase(r *rand.Rand) Case {
 			}
 		case k < 18:
 			name := clusterNames[r.Intn(len(clusterNames))]
+			if r.Intn(3) == 0 {
+				g.storm(g.hostOf(name))
+			}
 			g.del(name)
 		default:
 			g.ops = append(g.ops, Op{Op: "health", Up: r.Intn(nStubs), Ok: r.Intn(2) == 0})
